@@ -204,8 +204,7 @@ def overlay(fields, pairs):
                 flags.add("inner_tilde")
             if v == "":
                 flags.add("bare_tilde")
-        elif "~" in v:
-            flags.add("inner_tilde")
+        # (a value that merely CONTAINS '~' is an ordinary value: only the prefix marks it optional)
         if optional and k not in out:
             continue
         out[k] = v
